@@ -1,0 +1,40 @@
+// Copyright (C) 2024 Mikhail Yatsenko <mikhail.yatsenko@gmail.com>
+// SPDX-License-Identifier: MIT
+
+#pragma once
+
+// Verification points. They exist only when the library is compiled with
+// -DQTLOGGER_VERIF (a conformance harness then may install a callback that records or
+// schedules the threads passing a point); otherwise the macro expands to nothing.
+
+#ifdef QTLOGGER_VERIF
+
+#    include <atomic>
+
+namespace QtLogger {
+namespace Verif {
+
+using PointFn = void (*)(const char *point, const void *object, long long a, long long b);
+
+inline std::atomic<PointFn> &pointFn()
+{
+    static std::atomic<PointFn> fn { nullptr };
+    return fn;
+}
+
+} // namespace Verif
+} // namespace QtLogger
+
+#    define QTLOGGER_VERIF_POINT(point, object, a, b)                                              \
+        do {                                                                                       \
+            if (auto qtlVerifFn_ = ::QtLogger::Verif::pointFn().load(std::memory_order_acquire))   \
+                qtlVerifFn_(point, object, a, b);                                                  \
+        } while (0)
+
+#else
+
+#    define QTLOGGER_VERIF_POINT(point, object, a, b)                                              \
+        do {                                                                                       \
+        } while (0)
+
+#endif
